@@ -12,16 +12,25 @@
                  parseBool_complete (nothing else is accepted), convert_bool_roundtrip
   (4) floats     convert_float_roundtrip          from the law `parseF (showF x) = x` (HYPOTHESIS on core)
   (5) timestamps convert_tzfmt_of_law, convert_fmt_of_law, convert_auto_rfc3339, roundtrip_zoned_every_tz
-                 from chrono's laws (HYPOTHESES on chrono: pointwise equations on the rendered text)
+                 from chrono's laws (HYPOTHESES on chrono: pointwise equations on the rendered text);
+                 since 83f4a4b for EVERY instant chrono hands out (no `validInst` side condition:
+                 `datetime_to_utc` is the identity on the pair). instNs_leap_fold,
+                 convert_auto_rfc3339_leap: a leap-second representation `(s, 10⁹+f)` is observed as the
+                 nanosecond count of `(s+1, f)`, so the value returned for a leap second round-trips
+                 through RFC 3339 text that chrono reads as the following second
   (6) zones      convert_tz_irrelevant, zoned_format_ignores_tz, parseTimestamp_tz_only_local:
                  STRUCTURAL non-interference — the `TimestampTzFmt` branch of the model
                  (`convertTzFmt`) has no `Tz` among its inputs; it is tied to the code only by the
                  `c35.convert` correspondence (which supplies results for six zones and lets the model pick)
   (7) format_has_zone   hasOffsetSpec_imp_formatHasZone: every format with a real offset specifier is
                  classified zone-explicit; the converse is FALSE (Witness/C35.lean: `%%z`, `%Z`)
-  (8) panics     datetimeToUtc_panic_iff, convert_no_panic_partial: `convert` panics only when chrono
-                 hands out an instant in class `D_leap_offset` (or outside its own range); witness in
-                 Witness/C35.lean (`witness_leap_panic`), observed on the implementation.
+  (8) panics     datetimeToUtc_no_panic, convert_no_panic, convertNamed_no_panic: NO conversion panics,
+                 for every text, name, zone and every behaviour of chrono / core float text (FULL
+                 statement; it was `convert_no_panic_partial` under the hypothesis `ChronoSafe`, false of
+                 the real chrono, until 83f4a4b repaired finding `nopanic:D_leap_offset`).
+                 timestampOptOk_iff: the class `D_leap_offset` is exactly what `Utc.timestamp_opt`
+                 refuses inside chrono's range (the instants the old code panicked on; Witness/C35.lean
+                 `fixed_leap_offset…`).
 -/
 import VrlProofs.Lemmas.C35
 import VrlModel.C35
@@ -307,9 +316,6 @@ theorem convert_float_never_nan {P : Type} (ft : FloatText) (ch : Chrono P) (s :
 
 /-! ### (5) timestamps: from chrono's laws (hypotheses, pointwise on the rendered text) -/
 
-/-- the instant can be rebuilt by `datetime_to_utc` (true of every `DateTime<Utc>` value) -/
-def validInst (i : Inst) : Prop := timestampOptOk i.1 i.2 = true
-
 /-- zone resolution as `datetime_from_str` dispatches it -/
 def resolve {P : Type} (ch : Chrono P) : Tz → P → Option Inst
   | .local, p => ch.resolveLocal p
@@ -317,23 +323,22 @@ def resolve {P : Type} (ch : Chrono P) : Tz → P → Option Inst
 
 /-- zone-explicit format: if chrono reads the text back as `i`, so does the conversion -/
 theorem convert_tzfmt_of_law {P : Type} (ft : FloatText) (ch : Chrono P) (fmt : List Char)
-    (text : List Nat) (i : Inst) (hp : ch.parseFromStr text fmt = some i) (hv : validInst i) :
+    (text : List Nat) (i : Inst) (hp : ch.parseFromStr text fmt = some i) :
     convert ft ch (.timestampTzFmt fmt) text = .ok (.ts (instNs i)) := by
-  simp [convert, convertTzFmt, hp, datetimeToUtc, validInst.eq_1 i ▸ hv, tsResult]
+  simp [convert, convertTzFmt, hp, datetimeToUtc, tsResult]
 
 /-- zone-less format: if chrono parses the text and resolves it in the configured zone to `i` -/
 theorem convert_fmt_of_law {P : Type} (ft : FloatText) (ch : Chrono P) (fmt : List Char) (tz : Tz)
     (text : List Nat) (p : P) (i : Inst) (hp : ch.parse text fmt = some p)
-    (hr : resolve ch tz p = some i) (hv : validInst i) :
+    (hr : resolve ch tz p = some i) :
     convert ft ch (.timestampFmt fmt tz) text = .ok (.ts (instNs i)) := by
-  have hv' : timestampOptOk i.1 i.2 = true := hv
   cases tz with
   | «local» =>
     have hr' : ch.resolveLocal p = some i := hr
-    simp [convert, datetimeFromStr, hp, hr', datetimeToUtc, hv', tsResult]
+    simp [convert, datetimeFromStr, hp, hr', datetimeToUtc, tsResult]
   | named n =>
     have hr' : ch.resolveNamed n p = some i := hr
-    simp [convert, datetimeFromStr, hp, hr', datetimeToUtc, hv', tsResult]
+    simp [convert, datetimeFromStr, hp, hr', datetimeToUtc, tsResult]
 
 theorem tryLocal_none {P : Type} (ch : Chrono P) (tz : Tz) (s : List Nat) (fs : List (List Char))
     (h : ∀ f ∈ fs, ch.parse s f = none) : tryLocal ch tz s fs = none := by
@@ -348,21 +353,38 @@ theorem tryLocal_none {P : Type} (ch : Chrono P) (tz : Tz) (s : List Nat) (fs : 
     no zone-less format matches it, it is not a number (it contains `:`), RFC 3339 reads it. -/
 theorem convert_auto_rfc3339 {P : Type} (ft : FloatText) (ch : Chrono P) (tz : Tz) (text : List Nat)
     (i : Inst) (hloc : ∀ f ∈ localFormats, ch.parse text f = none) (hcolon : 58 ∈ text)
-    (h3 : ch.parseRfc3339 text = some i) (hv : validInst i) :
+    (h3 : ch.parseRfc3339 text = some i) :
     convert ft ch (.timestamp tz) text = .ok (.ts (instNs i)) := by
-  have hv' : timestampOptOk i.1 i.2 = true := hv
   have hn : parseI64 text = none := parseI64_none_of_mem text 58 hcolon (by decide) (by decide) (by omega)
   simp [convert, parseTimestamp, tryLocal_none ch tz text localFormats hloc, parseUnixTimestamp, hn, h3,
-    datetimeToUtc, hv', tsResult]
+    datetimeToUtc, tsResult]
+
+/-- the observable of a timestamp value is its nanosecond count: chrono's leap-second representation
+    `(s, 10⁹ + f)` and the ordinary pair `(s + 1, f)` are the same value of the model (and the same
+    `ts:<ns>` on the wire, the same `timestamp_nanos_opt()`), although chrono's `==` tells them apart. -/
+theorem instNs_leap_fold (s : Int) (f : Nat) : instNs (s, 1000000000 + f) = instNs (s + 1, f) := by
+  simp only [instNs]; omega
+
+/-- round trip of the value RETURNED for a leap second (in particular the one `datetime_to_utc` keeps
+    on a UTC second that is not :59 since 83f4a4b): its RFC 3339 text shows the following second
+    (observed on the implementation by `o.c35.reconv`: `1900-01-01 23:59:60` in America/St_Johns →
+    `(−2208889749, 10⁹)` → `1900-01-02T03:30:52Z`); if chrono reads that text as `(s + 1, f)`, the
+    automatic conversion yields the value again. -/
+theorem convert_auto_rfc3339_leap {P : Type} (ft : FloatText) (ch : Chrono P) (tz : Tz) (text : List Nat)
+    (s : Int) (f : Nat) (hloc : ∀ g ∈ localFormats, ch.parse text g = none) (hcolon : 58 ∈ text)
+    (h3 : ch.parseRfc3339 text = some (s + 1, f)) :
+    convert ft ch (.timestamp tz) text = .ok (.ts (instNs (s, 1000000000 + f))) := by
+  rw [instNs_leap_fold]
+  exact convert_auto_rfc3339 ft ch tz text (s + 1, f) hloc hcolon h3
 
 /-- formats with an explicit zone give the same instant under EVERY configured zone
     (named form: through `Conversion::parse`) -/
 theorem roundtrip_zoned_every_tz {P : Type} (ft : FloatText) (ch : Chrono P) (fmt : List Char)
     (text : List Nat) (i : Inst) (hz : formatHasZone (trim fmt) = true)
-    (hp : ch.parseFromStr text (trim fmt) = some i) (hv : validInst i) (tz : Tz) :
+    (hp : ch.parseFromStr text (trim fmt) = some i) (tz : Tz) :
     convertNamed ft ch (nTimestamp ++ '|' :: fmt) tz text = some (.ok (.ts (instNs i))) := by
   simp [convertNamed, parse_timestamp_format, Conversion.ofTimestampFmt, hz,
-    convert_tzfmt_of_law ft ch (trim fmt) text i hp hv]
+    convert_tzfmt_of_law ft ch (trim fmt) text i hp]
 
 /-! ### (6) the configured zone: structural non-interference -/
 
@@ -506,12 +528,17 @@ theorem zoneless_has_no_offset (f : List Char) (tz : Tz)
 
 /-! ### (8) panics -/
 
-theorem datetimeToUtc_panic_iff (i : Inst) : datetimeToUtc i = .panic ↔ timestampOptOk i.1 i.2 = false := by
-  unfold datetimeToUtc
-  split <;> simp_all
+/-- `datetime_to_utc` is the identity on the `(secs, nanos)` pair … -/
+theorem datetimeToUtc_eq (i : Inst) : datetimeToUtc i = .ok i := rfl
 
-/-- inside chrono's range and with a nanosecond field below 2·10⁹, the only refused instants are
-    the class `D_leap_offset` -/
+/-- … so it never panics — for EVERY pair, the leap-second representations that `Utc.timestamp_opt`
+    refuses included (it used to panic exactly when `timestampOptOk i.1 i.2 = false`). -/
+theorem datetimeToUtc_no_panic (i : Inst) : datetimeToUtc i ≠ .panic := by
+  simp [datetimeToUtc]
+
+/-- inside chrono's range and with a nanosecond field below 2·10⁹, the only instants
+    `Utc.timestamp_opt` refuses are the class `D_leap_offset` (the fixed finding's class: what the
+    pre-83f4a4b `datetime_to_utc` panicked on) -/
 theorem timestampOptOk_iff (i : Inst) (hr : chronoMinSecs ≤ i.1 ∧ i.1 ≤ chronoMaxSecs) (hn : i.2 < 2000000000) :
     timestampOptOk i.1 i.2 = true ↔ D_leap_offset i = false := by
   simp only [timestampOptOk, D_leap_offset, hr.1, hr.2, hn, decide_true, Bool.true_and]
@@ -521,80 +548,63 @@ theorem timestampOptOk_iff (i : Inst) (hr : chronoMinSecs ≤ i.1 ∧ i.1 ≤ ch
   · have : 1000000000 ≤ i.2 := by omega
     simp [h, this]
 
-/-- every instant chrono hands out can be rebuilt (FALSE of the real chrono: Witness/C35.lean) -/
-def ChronoSafe {P : Type} (ch : Chrono P) : Prop :=
-  (∀ p i, ch.resolveLocal p = some i → validInst i) ∧
-  (∀ n p i, ch.resolveNamed n p = some i → validInst i) ∧
-  (∀ s f i, ch.parseFromStr s f = some i → validInst i) ∧
-  (∀ s i, ch.parseRfc3339 s = some i → validInst i) ∧
-  (∀ s i, ch.parseRfc2822 s = some i → validInst i)
-
-theorem datetimeToUtc_ne_panic (i : Inst) (h : validInst i) : datetimeToUtc i = .ok i := by
-  have h' : timestampOptOk i.1 i.2 = true := h
-  simp [datetimeToUtc, h']
-
-theorem datetimeFromStr_ne_panic {P : Type} (ch : Chrono P) (hs : ChronoSafe ch) (tz : Tz) (s : List Nat)
-    (f : List Char) : datetimeFromStr ch tz s f ≠ .panic := by
+theorem datetimeFromStr_no_panic {P : Type} (ch : Chrono P) (tz : Tz) (s : List Nat) (f : List Char) :
+    datetimeFromStr ch tz s f ≠ .panic := by
   unfold datetimeFromStr
   split
   · simp
   · cases tz with
-    | «local» =>
-      simp only
-      split
-      · simp
-      · rename_i i hi; rw [datetimeToUtc_ne_panic i (hs.1 _ i hi)]; simp
-    | named n =>
-      simp only
-      split
-      · simp
-      · rename_i i hi; rw [datetimeToUtc_ne_panic i (hs.2.1 n _ i hi)]; simp
+    | «local» => simp only; split <;> simp [datetimeToUtc]
+    | named n => simp only; split <;> simp [datetimeToUtc]
 
-theorem tryLocal_ne_panic {P : Type} (ch : Chrono P) (hs : ChronoSafe ch) (tz : Tz) (s : List Nat)
-    (fs : List (List Char)) : tryLocal ch tz s fs ≠ some .panic := by
+theorem tryLocal_no_panic {P : Type} (ch : Chrono P) (tz : Tz) (s : List Nat) (fs : List (List Char)) :
+    tryLocal ch tz s fs ≠ some .panic := by
   induction fs with
   | nil => simp [tryLocal]
   | cons f fs ih =>
-    have := datetimeFromStr_ne_panic ch hs tz s f
+    have := datetimeFromStr_no_panic ch tz s f
     simp only [tryLocal]
     split
     · simp
     · rename_i hp; exact absurd hp this
     · exact ih
 
-theorem tryZoned_ne_panic {P : Type} (ch : Chrono P) (hs : ChronoSafe ch) (s : List Nat)
-    (fs : List (List Char)) : tryZoned ch s fs ≠ some .panic := by
+theorem tryZoned_no_panic {P : Type} (ch : Chrono P) (s : List Nat) (fs : List (List Char)) :
+    tryZoned ch s fs ≠ some .panic := by
   induction fs with
   | nil => simp [tryZoned]
   | cons f fs ih =>
     simp only [tryZoned]
     split
-    · rename_i i hi; rw [datetimeToUtc_ne_panic i (hs.2.2.1 s f i hi)]; simp
+    · simp [datetimeToUtc]
     · exact ih
 
-theorem parseTimestamp_ne_panic {P : Type} (ch : Chrono P) (hs : ChronoSafe ch) (tz : Tz) (s : List Nat) :
+theorem parseTimestamp_no_panic {P : Type} (ch : Chrono P) (tz : Tz) (s : List Nat) :
     parseTimestamp ch tz s ≠ .panic := by
   unfold parseTimestamp
   split
   · rename_i r hr
     intro h; subst h
-    exact tryLocal_ne_panic ch hs tz s localFormats hr
+    exact tryLocal_no_panic ch tz s localFormats hr
   · split
     · simp
     · split
-      · rename_i i hi; rw [datetimeToUtc_ne_panic i (hs.2.2.2.1 s i hi)]; simp
+      · simp [datetimeToUtc]
       · split
-        · rename_i i hi; rw [datetimeToUtc_ne_panic i (hs.2.2.2.2 s i hi)]; simp
+        · simp [datetimeToUtc]
         · split
           · rename_i r hr
             intro h; subst h
-            exact tryZoned_ne_panic ch hs s tzFormats hr
+            exact tryZoned_no_panic ch s tzFormats hr
           · simp
 
-/-- FULL statement `∀ conv s, convert ft ch conv s ≠ .panic` is FALSE (witness_leap_panic);
-    it holds when chrono only hands out rebuildable instants. -/
-theorem convert_no_panic_partial {P : Type} (ft : FloatText) (ch : Chrono P) (hs : ChronoSafe ch)
-    (conv : Conversion) (s : List Nat) : convert ft ch conv s ≠ .panic := by
+/-- FULL statement: no conversion panics — every variant, every text, every zone, and EVERY behaviour
+    of the third-party parameters (no hypothesis on `ft`, `ch`). Until 83f4a4b this needed
+    `ChronoSafe` (chrono hands out only instants `Utc.timestamp_opt` accepts), which the real chrono
+    violates for a leap second in a zone whose UTC offset has seconds (fixed finding
+    `nopanic:D_leap_offset`). -/
+theorem convert_no_panic {P : Type} (ft : FloatText) (ch : Chrono P) (conv : Conversion) (s : List Nat) :
+    convert ft ch conv s ≠ .panic := by
   cases conv with
   | bytes => simp [convert]
   | integer => simp only [convert]; split <;> simp
@@ -605,17 +615,23 @@ theorem convert_no_panic_partial {P : Type} (ft : FloatText) (ch : Chrono P) (hs
     · split <;> simp
   | boolean => simp only [convert]; split <;> simp
   | timestamp tz =>
-    have := parseTimestamp_ne_panic ch hs tz s
+    have := parseTimestamp_no_panic ch tz s
     simp only [convert]
     cases h : parseTimestamp ch tz s <;> simp_all [tsResult]
   | timestampFmt f tz =>
-    have := datetimeFromStr_ne_panic ch hs tz s f
+    have := datetimeFromStr_no_panic ch tz s f
     simp only [convert]
     cases h : datetimeFromStr ch tz s f <;> simp_all [tsResult]
   | timestampTzFmt f =>
     simp only [convert, convertTzFmt]
-    split
-    · simp
-    · rename_i i hi; rw [datetimeToUtc_ne_panic i (hs.2.2.1 s f i hi)]; simp [tsResult]
+    split <;> simp [datetimeToUtc, tsResult]
+
+/-- the embedder entry point `Conversion::parse(name, tz)?.convert(bytes)` never panics
+    (the Spec predicate `noPanic` of the oracle `o.c35.nopanic` holds of every model result) -/
+theorem convertNamed_no_panic {P : Type} (ft : FloatText) (ch : Chrono P) (name : List Char) (tz : Tz)
+    (s : List Nat) (r : ConvResult) (h : convertNamed ft ch name tz s = some r) : noPanic r = true := by
+  simp only [convertNamed, Option.map_eq_some_iff] at h
+  obtain ⟨cv, _, rfl⟩ := h
+  simp [noPanic, convert_no_panic]
 
 end C35
